@@ -7,6 +7,7 @@ import HealSparse.Model.Api
 import HealSparse.Model.FitsIO
 import HealSparse.Model.ApiRes
 import HealSparse.Model.DegradeOnRead
+import HealSparse.Model.Cat
 namespace HS
 
 /-- what a healsparse FITS file holds (decoded cells; the byte encoding is trusted) -/
@@ -164,5 +165,30 @@ def apiDegradeOnRead (f : FileObj) (ordOut : Nat) (red : String) (pixels : Optio
         mk (.plain dtOut) sentOut (degradeOnReadW c vc f.file w.file w.sentinel (wprep w.sentinel) pixels g fr sentOut)
       | _, _ =>
         mk (.plain dtOut) sentOut (degradeOnRead c vc f.file pixels g (fun cells => fr (cells.map (·, Val.num 0 0))) sentOut)
+
+
+/-- `cat_healsparse_files(files, outfile, in_memory=True, nside_coverage_out=…, check_overlap=…, or_overlap=…)` -/
+def apiCat (files : List FileObj) (covordOut : Option Nat) (checkOverlap orOverlap : Bool) :
+    Except Err FileObj := do
+  if orOverlap && !checkOverlap then throw .runtime          -- `raise RuntimeWarning`
+  let f0 ← match files with
+    | f :: _ => pure f
+    | [] => throw .index
+  let co := covordOut.getD f0.covord
+  if files.any (fun f => f.spord != f0.spord) then throw .runtime
+  let kind ← match fileKind f0 with
+    | some k => pure k
+    | none => throw .runtime
+  if co > f0.spord then throw .value
+  let vc : VCfg Val := ⟨kind.blank f0.sentinel, kind.valid f0.sentinel⟩
+  let cOut := cfgOf co f0.spord
+  let inputs : List (CatIn Val) := files.map fun f => ⟨cfgOf f.covord f.spord, f.file⟩
+  let orOk := orOverlap && kind.isIntegerMap
+  let orF : Val → Val → Val := fun a b => Val.or kind.dt a b
+  match catFiles cOut vc inputs checkOverlap orOk orF with
+  | none => throw .runtime
+  | some st =>
+    let m : MapObj := { covord := co, spord := f0.spord, kind := kind, sent := f0.sentinel, st := st }
+    pure (apiWrite m [])
 
 end HS
